@@ -23,14 +23,14 @@ Rule(s, d, c, pe) == [src |-> s, dst |-> d, coef |-> c, pexp |-> pe]
 Pool == [c \in {"P", "Q", "S", "T"} |->
    CASE c = "P" -> [rules |-> {Rule(DA, DB, R(2), 1), Rule(DB, DG, R(3), 0)}, redefs |-> <<>>, default |-> R(2)]
      [] c = "Q" -> [rules |-> {Rule(DA, DB, R(7), 0), Rule(DG, DH, R(5), 0), Rule(DB, DA, <<1, 7>>, 0), Rule(DR, DG, R(17), 0)}, redefs |-> <<>>, default |-> NoP]
-     [] c = "S" -> [rules |-> {Rule(DA, DG, R(11), 0), Rule(DH, DA, R(13), -1)}, redefs |-> <<>>, default |-> R(4)]
+     [] c = "S" -> [rules |-> {Rule(DA, DG, R(11), 0), Rule(DH, DA, R(13), -1), Rule(DH, DR, R(19), 0)}, redefs |-> <<>>, default |-> R(4)]
      [] c = "T" -> [rules |-> {Rule(DB, DA, R(9), 0)}, redefs |-> <<[unit |-> "x", scale |-> R(4), ref |-> Single("a", One)]>>, default |-> NoP]]
 Sys == [x \in {} |-> [old |-> "", new |-> ""]]
 Kw == {<<5, 1>>}
 Ops11 == {"enable"}
 Names == {"a", "b", "g", "h", "x", "y", "z"}
 Probes11 == {<<"a", "b">>, <<"a", "g">>, <<"a", "h">>, <<"b", "a">>, <<"b", "g">>, <<"g", "h">>, <<"h", "a">>, <<"h", "b">>,
-             <<"x", "y">>, <<"y", "x">>, <<"z", "g">>, <<"x", "a">>, <<"z", "a">>, <<"y", "b">>, <<"g", "a">>, <<"h", "g">>, <<"r", "g">>, <<"r", "h">>}
+             <<"x", "y">>, <<"y", "x">>, <<"z", "g">>, <<"x", "a">>, <<"z", "a">>, <<"y", "b">>, <<"g", "a">>, <<"h", "g">>, <<"r", "g">>, <<"r", "h">>, <<"h", "r">>, <<"g", "r">>}
 Keys11 == {<<"conv", pr[1], pr[2]>> : pr \in Probes11}
 UnitJ(d) == [base |-> d.base, scale |-> d.scale, ref |-> HashKey(d.ref), prefixed |-> FALSE]
 CtxJ(c) == [rules |-> {[src |-> HashKey(r.src), dst |-> HashKey(r.dst), coef |-> r.coef, pexp |-> r.pexp] : r \in c.rules},
